@@ -104,6 +104,7 @@ static void* s_alloc(size_t dim){
 static int s_apply(void* st,size_t dim,double t,double h,double y[],double yerr[],const double dydt_in[],double dydt_out[],const gsl_odeiv2_system* sys){
   SimState* s=(SimState*)st; RunCtx& c=*g_ctx; const Tableau& T=tableaux[s->tableau];
   c.napply++; s->applies++; g_last_apply_y=y;
+  if(c.hard_fail_at>0 && c.napply>=c.hard_fail_at){ c.hard_fail_at=-1; return GSL_EBADFUNC; }
   if(c.fail_budget>0 && std::fabs(h)>1e-9){ c.fail_budget--; c.failures_fired++; return GSL_FAILURE; }
   double* k[4]; double* ytmp;
   if(s->bufmode==1){ for(int i=0;i<4;i++) k[i]=(double*)malloc(dim*sizeof(double)); ytmp=(double*)malloc(dim*sizeof(double)); }   // fresh (recycled) addresses every step
